@@ -392,9 +392,11 @@ func checkC10(r *evid.Run) {
 			if d.N%1777 == 0 {
 				r.Sample(map[string]any{"doc": conc.Doc(d.Doc), "verdict": d.Verdict, "sigma": d.Sigma})
 			}
-			checkMassiveState(r, pool, d, conc, rng, rs)
+			cn := *conc
+			cn.FinalNL = (d.N/stride[mod])%2 == 0 // every other document ends without a final newline
+			checkMassiveState(r, pool, d, &cn, rng, rs)
 			if d.N%(3*stride[mod]) == 0 {
-				checkMassiveFromRoot(r, pool, d, conc, rng) // the From-Root family on every third document
+				checkMassiveFromRoot(r, pool, d, &cn, rng) // the From-Root family on every third document
 			}
 		})
 	}
